@@ -30,6 +30,7 @@ T = "_x._tcp.local."
 T2 = "_y._tcp.local."
 D13_SIG = "C13:lookup-third-query-early"
 D13B_SIG = "C13:suppression-last-sighting-only"
+R3A_SIG = "C13:heard-tc-deferral-window"
 
 
 class Stub:
@@ -544,8 +545,8 @@ def _their(tag, t):
 
 
 def gen_hearm_case(rng):
-    form = rng.choice(["multi", "multi", "multi", "probe", "probe", "tc", "single"])
-    nq = {"multi": rng.choice([2, 2, 3, 4]), "probe": rng.choice([1, 1, 2]), "tc": rng.choice([1, 2]), "single": 1}[form]
+    form = rng.choice(["multi", "multi", "multi", "probe", "probe", "tc", "single", "tc-lone", "tc-lone"])
+    nq = {"multi": rng.choice([2, 2, 3, 4]), "probe": rng.choice([1, 1, 2]), "tc": rng.choice([1, 2]), "single": 1, "tc-lone": rng.choice([1, 1, 2])}[form]
     qs = [[tag, ty, rng.random() < (0.6 if form == "probe" else 0.3)] for (tag, ty) in
           (rng.choice(QPOOL[:3] + QPOOL[:3] + QPOOL) for _ in range(nq))]
     if rng.random() < 0.7 and not any(q[0] in ("T", "TU") and q[1] == 12 for q in qs):
@@ -566,8 +567,22 @@ def gen_hearm_case(rng):
         for i, part in enumerate(parts):
             pq = qs if (i == 0 and not split_q) else ([qs[0]] if i == 0 else (qs[1:] if (i == 1 and split_q) else []))
             pkts.append({"qs": pq, "ans": part, "auth": [], "tc": i < k - 1})
+    elif form == "tc-lone":
+        # an INCOMPLETE train: every packet carries the TC bit, the continuation never arrives.  The listener holds the packets back and
+        # processes them when its 400-500 ms timer fires -- with the arrival time of the last packet as the time of the sighting
+        k = rng.choice([1, 1, 2])
+        cut = sorted(rng.randrange(len(known) + 1) for _ in range(k - 1))
+        parts = [known[a:b] for a, b in zip([0] + cut, cut + [len(known)])]
+        for i, part in enumerate(parts):
+            pkts.append({"qs": qs if i == 0 else [], "ans": part, "auth": [], "tc": True})
     else:
         pkts.append({"qs": qs, "ans": known, "auth": [], "tc": False})
+    if form == "tc-lone":
+        # own ask inside the deferral window (0..399 ms after the last packet), after it, and around 999 ms after the ARRIVAL
+        return {"stream": "hearm", "simseed": rng.randint(0, 10**6), "form": form, "registered": rng.choice([[T], [T], [T], [T, T2]]),
+                "packets": pkts, "port": rng.choice([5353, 5353, 5353, 40000]), "pgap": rng.choice([0, 30]) if len(pkts) > 1 else 0,
+                "gap": rng.choice([0, 1, 100, 300, 399, 501, 600, 998, 999, 1000, 1001, 1200, 1400]), "ours": rng.choice([0, 1, 3]), "oursy": rng.random() < 0.3,
+                "cover": cover, "tick": None, "updated": rng.random() < 0.2}
     return {"stream": "hearm", "simseed": rng.randint(0, 10**6), "form": form, "registered": rng.choice([[T], [T], [T], [T], [T, T2], [T2], []]),
             "packets": pkts, "port": rng.choice([5353, 5353, 5353, 5353, 40000]), "pgap": rng.choice([0, 0, 0, 30]) if len(pkts) > 1 else 0,
             "gap": rng.choice([0, 1, 500, 500, 998, 999, 1000, 1001, 3000]), "ours": rng.choice([0, 1, 3]), "oursy": rng.random() < 0.3, "cover": cover,
@@ -615,6 +630,7 @@ def run_hearm(case, res):
             mine.append(ptr(T, "Mine." + T, 4500, now0 - 1000))
         zc.cache.async_add_records(mine)
         pre = hist_tokens(zc.question_history)
+        n_draws = len(sim.draws)
         toks = []
         times = []
         for i, pk in enumerate(case["packets"]):
@@ -643,7 +659,16 @@ def run_hearm(case, res):
             host.inject(data[0], "10.0.0.9", case["port"])
             toks.append("%s %d %s %d %s" % (C.b01(bool(pk["auth"])), len(qtok), " ".join(qtok), len(recs), " ".join(C.rec_line(r, created=t) for r in recs)))
         out["times"] = times
-        out["hear"] = (" ".join(("c13hearm %d %s %d %s" % (times[-1], pre, len(toks), " ".join(toks))).split()), hist_str(zc.question_history), "hearm")
+        incomplete = case["packets"][-1]["tc"]
+        if incomplete:
+            # the train is held back: nothing is recorded on arrival; the assembled query is processed when the deferral timer fires
+            # (the draw of the last packet), stamped with the arrival time of the last packet
+            tcd = [d for d in sim.draws[n_draws:] if (d[1], d[2]) == (400, 500)]      # none when the listener dropped the query (no services)
+            out["exec"] = times[-1] + tcd[-1][3] if tcd else None
+            out["hear"] = ("c13hearm %d %s 0" % (times[-1], pre), hist_str(zc.question_history), "hearm")
+        else:
+            out["exec"] = times[-1]
+            out["hear"] = (" ".join(("c13hearm %d %s %d %s" % (times[-1], pre, len(toks), " ".join(toks))).split()), hist_str(zc.question_history), "hearm")
         if case.get("tick") is not None:
             g1 = int(case["gap"] * case["tick"])
             await sim.sleep_ms(g1)
@@ -655,6 +680,10 @@ def run_hearm(case, res):
             await sim.sleep_ms(case["gap"])
         now = sim.loop.ms
         out["now"] = now
+        hear_line = " ".join(("c13hearm %d %s %d %s" % (times[-1], "%s", len(toks), " ".join(toks))).split())
+        if incomplete and out["exec"] is not None and now > out["exec"]:
+            # the timer has fired: the held-back query was processed as a whole, with the time of its last packet's arrival
+            out["hear2"] = (hear_line % pre, hist_str(zc.question_history), "hearm")
         pre_hist, pre_cache = hist_tokens(zc.question_history), cache_tokens(zc.cache)
         ts = {T, T2}
         outs = B.generate_service_query(zc, float(now), ts, True, None)
@@ -662,6 +691,24 @@ def run_hearm(case, res):
         out["svc"] = ("c13svc %d 0 %s %s %d %s" % (now, pre_cache, pre_hist, len(tl), " ".join(C.hs(x) for x in tl)),
                       "%s || %s" % (outs_str(outs, float(now)), hist_str(zc.question_history)), "svc")
         out["asked"] = {q.name.lower() for o_ in outs for q in o_.questions}
+        # a lookup's questions for our own instance (SRV/TXT of the instance, A/AAAA of its host) at the same instant: a heard SRV/TXT/A
+        # question is remembered like a heard PTR question (whatever answer strategy serves it)
+        from zeroconf import DNSQuestionType
+        from zeroconf.asyncio import AsyncServiceInfo
+        info = AsyncServiceInfo(T, "Mine." + T)
+        info.server, info.server_key = MINE_HOST, MINE_HOST
+        pre_hist2 = hist_tokens(zc.question_history)
+        rq = info._generate_request_query(zc, float(now), DNSQuestionType.QM)
+        out["req"] = ("c13req %d 0 %s %s %s %s" % (now, pre_cache, pre_hist2, C.hs("Mine." + T), C.hs(MINE_HOST)),
+                      "%s || %s" % (outs_str([rq], float(now)), hist_str(zc.question_history)), "req")
+        out["asked_lookup"] = {(q.name.lower(), q.type) for q in rq.questions}
+        # the host's own multicast answer loops back into its cache: an SRV/TXT held fresh is not asked at all (C18's clause)
+        out["held"] = {(r.name.lower(), r.type) for b_ in zc.cache.cache.values() for r in b_ if not r.is_stale(float(now))}
+        if incomplete and out["exec"] is not None and now <= out["exec"]:
+            # ... and the held-back query is processed after our ask: executed at T + 400..500 with time T
+            pre_def = hist_tokens(zc.question_history)
+            await sim.sleep_ms(out["exec"] - now + 1)
+            out["hear2"] = (hear_line % pre_def, hist_str(zc.question_history), "hearm")
         await vsim.close_host(host)
 
     sim.run(main)
@@ -688,7 +735,15 @@ def run_hearm(case, res):
         # instance as an authoritative responder just the same: the sentence has no source-port qualifier, so it counts as "heard"
         demand_sup = heard_qm and covered and now - t_first <= 999
         demand_sent = (not heard_qm) or now - t_last > 999 or uncovered
-        if demand_sup and asked:
+        pending = case["packets"][-1]["tc"] and out.get("exec") is not None and now <= out["exec"]
+        if demand_sup and asked and pending:
+            # finding R3-C13-a, exactly its input class: the query was HEARD (its packets arrived <= 999 ms ago, the list it came with is
+            # covered) but it is a truncated query whose train is incomplete, and our ask falls inside the listener's deferral window:
+            # nothing has been written to the question history yet
+            bad.append((R3A_SIG, "a truncated (TC) query whose continuation never arrived was heard %d ms earlier by a host authoritative for %s; its QM question %s came "
+                        "with known answers %s, all of which we list ourselves, yet our own QM question was sent: the listener holds the packet back for %d ms "
+                        "(deferral timer) and the question history is written only then" % (now - t_first, case["registered"], ty, theirs, out["exec"] - t_last)))
+        elif demand_sup and asked:
             bad.append(("C13:heard-question-suppression", "a %s-question query (%s) from port %d was heard %d ms earlier by a host authoritative for %s; its QM question %s "
                         "came with known answers %s, all of which we list ourselves, yet our own QM question was sent"
                         % (sum(len(pk["qs"]) for pk in case["packets"]), case["form"], case["port"], now - t_first, case["registered"], ty, theirs)))
@@ -696,7 +751,19 @@ def run_hearm(case, res):
             bad.append(("C13:heard-question-suppression", "our QM question %s was suppressed %d ms after a %s query although %s"
                         % (ty, now - t_last, case["form"], "no QM question for it was heard by us as its responder" if not heard_qm else
                            ("the window had passed" if now - t_last > 999 else "the peer listed a record we do not hold"))))
-    pairs = [out["svc"], out["hear"]] + ([out["tick"]] if "tick" in out else [])
+    # ---- the same for a lookup's questions about our own instance: a heard QM question for SRV/TXT of the instance or A/AAAA of its host (whatever
+    #      answer strategy serves it) with an empty known-answer list suppresses the lookup's question for 999 ms
+    pending = case["packets"][-1]["tc"] and (out.get("exec") is None or now <= out["exec"])
+    for (qn, qt) in (("mine." + T, 33), ("mine." + T, 16), (MINE_HOST, 1), (MINE_HOST, 28)):
+        heard_q = any(_qname(tag).lower() == qn and ty_ == qt and not qu and can(_qname(tag), ty_) for pk in case["packets"] for (tag, ty_, qu) in pk["qs"])
+        asked_q = (qn, qt) in out["asked_lookup"]
+        if heard_q and not theirs and now - t_first <= 999 and asked_q and not pending:
+            bad.append(("C13:heard-lookup-question-suppression", "the QM question %s/%d was heard %d ms earlier (%s query, empty known-answer list) by a host that answers it, "
+                        "yet the lookup's own QM question was sent" % (qn, qt, now - t_first, case["form"])))
+        elif (not heard_q or now - t_last > 999) and not asked_q and not (qt in (33, 16) and (qn, qt) in out["held"]):
+            bad.append(("C13:heard-lookup-question-suppression", "the lookup's QM question %s/%d was suppressed although %s" % (qn, qt,
+                        "the window had passed" if heard_q else "no QM question for it was heard by us as its responder")))
+    pairs = [out["svc"], out["hear"], out["req"]] + ([out["tick"]] if "tick" in out else []) + ([out["hear2"]] if "hear2" in out else [])
     sig = ("hearm", case["form"], tuple(sorted(case["registered"])), case["port"] == 5353, min(case["gap"], 1001), len(case["packets"]),
            tuple(sorted((tag, ty, qu) for pk in case["packets"] for (tag, ty, qu) in pk["qs"]))[:3], bool(theirs))
     return pairs, bad, sig
